@@ -9,7 +9,7 @@ own lines.
 """
 import os, re, subprocess, concurrent.futures, time, json
 from .. import build
-from ..core import Violation, VERIF
+from ..core import Violation, VERIF, modules_for
 
 INT_MAX = 2147483647
 ASAN = ("exitcode=77:detect_leaks=0:allocator_may_return_null=1:abort_on_error=0:handle_segv=0:"
@@ -375,7 +375,7 @@ def run(ctx):
     ctx.notes["undefined_ids"] = len(ids) - len(named)
 
     # ---- 1. Lean stage ----
-    failed = ctx.lean_stage(["SfProps.C17"])
+    failed = ctx.lean_stage(modules_for("C17"))
 
     sfh = ctx.sfh()
     env = dict(os.environ)
